@@ -10,7 +10,7 @@
 From Coq Require Import String.
 From Coq Require Import ZArith List Bool Lia.
 From IBL.lib Require Import PyInt.
-From IBL.C01 Require Import Model Proofs Geometry Gains AlignProofs SyncProofs Bisect.
+From IBL.C01 Require Import Model Proofs Geometry Gains AlignProofs SyncProofs Bisect State.
 Require IBL.C08.Model IBL.C08.Proofs IBL.C08.Props.
 Require IBL.C03.F32.
 Require IBL.C11.Model IBL.C11.Proofs IBL.C11.Props.
@@ -327,6 +327,56 @@ Proof.
 Qed.
 Print Assumptions C01_reads_whole_file.
 
+(* The open guard: a reader that was constructed with open=False (or closed) answers no read —
+   read, read_samples and reader[...] raise IOError — except reader[tuple of length <> 2], which
+   returns None without reading; once opened the calls are the ones described above. *)
+Theorem C01_open_guard :
+  forall (A G V : Type) (cal : A -> G -> V) cbin raw nc order gain,
+  (forall nsel csel, reader_read cal false cbin raw nc order gain nsel csel = NotOpen) /\
+  (forall nsel csel, reader_read cal true cbin raw nc order gain nsel csel
+                     = Ran (read cal cbin raw nc order gain nsel csel)) /\
+  (forall s, reader_getitem cal false cbin raw nc order gain (ISel s) = NotOpen) /\
+  (forall a b, reader_getitem cal false cbin raw nc order gain (ITuple [a; b]) = NotOpen) /\
+  (forall opened l, length l <> 2%nat ->
+     reader_getitem cal opened cbin raw nc order gain (ITuple l) = Ran (Ok None)) /\
+  (forall it, reader_getitem cal true cbin raw nc order gain it
+              = Ran (getitem cal cbin raw nc order gain it)).
+Proof.
+  intros A G V cal cbin raw nc order gain. repeat split; try reflexivity.
+  - intros opened l Hl. destruct l as [|a [|b [|c r]]]; try reflexivity. contradiction.
+  - intros it. destruct it as [s|l]; [reflexivity|]. destruct l as [|a [|b [|c r]]]; reflexivity.
+Qed.
+Print Assumptions C01_open_guard.
+
+(* The constructor without meta data: the guessed shape covers the file exactly (nc * ns int16
+   samples = the file size), it is 384 columns without sync or 385 columns with one sync
+   column, 384 having priority when both fit; no guess when neither fits. *)
+Theorem C01_guessed_shape_fits_file : forall nbytes,
+  (forall nc ns nsync, guess_shape nbytes = Some (nc, ns, nsync) ->
+     nc * ns * 2 = nbytes /\ ((nc = 384 /\ nsync = 0) \/ (nc = 385 /\ nsync = 1 /\ nbytes mod 768 <> 0))) /\
+  (nbytes mod 768 = 0 -> guess_shape nbytes = Some (384, nbytes / 768, 0)) /\
+  (guess_shape nbytes = None <-> nbytes mod 768 <> 0 /\ nbytes mod 770 <> 0).
+Proof.
+  intros nbytes. unfold guess_shape.
+  destruct (nbytes mod 768 =? 0) eqn:E1; [apply Z.eqb_eq in E1|apply Z.eqb_neq in E1].
+  - split; [|split].
+    + intros nc ns nsync H. inversion H; subst. split; [|left; auto].
+      pose proof (Z.div_mod nbytes 768 ltac:(lia)). lia.
+    + reflexivity.
+    + split; [discriminate|intros [H _]; contradiction].
+  - destruct (nbytes mod 770 =? 0) eqn:E2; [apply Z.eqb_eq in E2|apply Z.eqb_neq in E2].
+    + split; [|split].
+      * intros nc ns nsync H. inversion H; subst. split; [|right; auto].
+        pose proof (Z.div_mod nbytes 770 ltac:(lia)). lia.
+      * intros H. contradiction.
+      * split; [discriminate|intros [_ H]; contradiction].
+    + split; [|split].
+      * intros nc ns nsync H. discriminate.
+      * intros H. contradiction.
+      * split; auto.
+Qed.
+Print Assumptions C01_guessed_shape_fits_file.
+
 (* ---- refuted clauses (faithful model; confirmed on the real code, see notes) ---- *)
 Definition ex_raw : list (list (Z * Z)) :=
   map (fun i => map (fun c => (i, c)) [0; 1; 2]) [0; 1; 2; 3].
@@ -420,4 +470,9 @@ Proof. eexists. split; [vm_compute; reflexivity|]. repeat split; vm_compute; ref
 Example C01_example_bisect :
   bisect_right_bin [0; 3; 3; 7; 10] 3 0 = 3 /\ bisect_right [0; 3; 3; 7; 10] 3 0 = 3 /\
   bisect_right_bin [0; 3; 3; 7; 10] 9 2 = 4 /\ chunks_for_interval_bin [0; 3; 7; 10] 10 2 8 = (0, 2).
+Proof. repeat split. Qed.
+
+Example C01_example_guess :
+  guess_shape (5 * 385 * 2) = Some (385, 5, 1) /\ guess_shape (6 * 384 * 2) = Some (384, 6, 0) /\
+  guess_shape (384 * 385 * 2) = Some (384, 385, 0) /\ guess_shape 1000 = None.
 Proof. repeat split. Qed.
